@@ -927,9 +927,21 @@ def c10_k6(ctx):
 
     # "acts" = calls a method of the transaction or of its timers (comparisons of the phase are not actions)
     own = {g.norm for g in impl_fns(ctx, SEND)}
+
+    def acting(c):
+        """a call that can change something: a method of the transaction that writes a field of it, or a
+        `&mut self` method of its timers (reading the id for a log line is not an action)"""
+        g = ctx.prog.by_norm.get(c)
+        if g is None:
+            return False
+        if c in own:
+            return bool(ctx.mods.of(c))
+        if c.startswith("cfdp_daemon::timer::"):
+            return g.arg_count >= 1 and (g.locals[1]["ty"] or "").startswith("&mut")
+        return False
     active, armed = {}, {}
     for ph in sorted(set(names.values())):
-        acts = reachable_calls(ht, ph, lambda c: c in own or c.startswith("cfdp_daemon::timer::"))
+        acts = reachable_calls(ht, ph, acting)
         if acts:
             active[ph] = sorted(set(acts))
         if reachable_calls(ut, ph, lambda c: c.endswith("Timer::until_timeout") or c.endswith("Counter::until_timeout")):
